@@ -4,6 +4,7 @@ package main
 
 import (
 	"fmt"
+	"time"
 	"strings"
 
 	xl "github.com/xuri/excelize/v2"
@@ -18,6 +19,14 @@ func c18Named(ps []*c18Pair, n string) *c18Pair {
 	return nil
 }
 
+var c18T0 time.Time
+
+// c18Lap records the wall time of one generator section in the notes (not in stats: it varies).
+func c18Lap(r *Run, what string) {
+	r.Notes = append(r.Notes, fmt.Sprintf("time %s: %.1fs", what, time.Since(c18T0).Seconds()))
+	c18T0 = time.Now()
+}
+
 func runC18(r *Run, rng *Rng, replay string) {
 	r.Rule = "one case = one history of 1..3 successive sets of one Set*/Get* pair on one workbook (whole-structure comparison immediately, after unrelated edits, after save+reopen), or one helper/escape/password/defined-name op; non-trivial = the setter was reached with a generated structure (all); distinct by rendered history"
 	if replay != "" {
@@ -28,6 +37,7 @@ func runC18(r *Run, rng *Rng, replay string) {
 	if r.Tier == "thorough" {
 		n = 600
 	}
+	c18T0 = time.Now()
 	pairs := c18Pairs()
 	// deterministic witnesses of the open findings (reproduced on every run)
 	tr, zero, five, bogus, u0 := true, 0.0, 5.0, "bogus", uint(0)
@@ -42,6 +52,7 @@ func runC18(r *Run, rng *Rng, replay string) {
 		}
 	}
 	dims := []string{"A1", "a1", "$A$1", "B2:D9", "d9:b2", "$B$2:$D$9", "D2:B9", "XFD1048576", "A1:XFD1048576", "A0", "A1:B2:C3", "", "A", "1:2", "A:B", "XFE1", "A1048577", "Sheet1!A1", "A1:", ":A1", "B2:B2"}
+	c18Lap(r, "pairs")
 	for _, d := range dims {
 		c18Dimension(r, rng, d)
 	}
